@@ -458,7 +458,7 @@ def check_input_files(args):
         for lib in sample.file_list:
             for in_file in lib:
                 if args.input_data.input_type == "save":
-                    saves = glob.glob(in_file + "*")
+                    saves = glob.glob(glob.escape(in_file) + "*")
                     if not saves:
                         logger.critical("Input files " + in_file + "* do not exist")
                     continue
@@ -495,7 +495,7 @@ def check_input_files(args):
 
     if args.read_assignments is not None:
         for r in args.read_assignments:
-            if not glob.glob(r + "*"):
+            if not glob.glob(glob.escape(r) + "*"):
                 logger.critical("No files found with prefix " + str(r))
                 exit(-1)
 
